@@ -75,6 +75,12 @@ CHECKS['C19'] = ('model_checking',
     'Integer keys only (no floats) in the symbolic part; text / criteria / tables from pools (bounded exhaustive); INDEX row/column 0 outside. ' + TB,
     'DESIGN.md §3 C19')
 
+CHECKS['C12'] = ('model_checking',
+    'concolic symbolic execution of the real rounding code on exact-decimal proxies (z3 LIA) and of the integer-valued kernels on IEEE doubles (z3+cvc5 QF_FP/BVFP); CrossHair/z3 for text slicing on symbolic strings; selector exploration for search/substitute, logic, information and aggregation functions',
+    'Bounded symbolic checking: ROUND / ROUNDUP / ROUNDDOWN / TRUNC of k/10^e at d digits equal the decimal-arithmetic answer for EVERY integer |k| < 10^15 (e, d from the tier grid); EVEN / ODD / INT / SIGN / ABS for every normal double below 2^50; CEILING / FLOOR sign cases for every 20-bit integer against fixed significances; LEFT / RIGHT / MID / REPLACE against slicing specs on symbolic strings and positions; FIND / SEARCH / SUBSTITUTE / LEN / UPPER / LOWER / TRIM, display-form coercion, IF / NOT / IFERROR / IFNA, the IS family, and 12 aggregations (referenced vs typed arguments, blanks, order invariance) by exhaustive selector pools.',
+    'Decimal proxies rest on the contract that the shortest repr of the double nearest to a <=15-digit decimal is that decimal; libm functions, STDEV/VAR, SUMPRODUCT, IFS/SWITCH, TEXTJOIN, VALUE outside; aggregations and search functions on pools, not symbolic values. ' + TB,
+    'DESIGN.md §3 C12')
+
 NA = {
     'C15': 'the dependency closure is computed over openpyxl worksheets read from .xlsx files while mutating the schedula dispatcher; neither can be given a symbolic state (DESIGN §4)',
     'C16': 'placement is done by openpyxl range iteration zipped with np.ravel and compared by re-reading files: I/O and third-party C code, no encodable kernel (DESIGN §4)',
